@@ -118,7 +118,7 @@ class Project:
         v = Version(ts, commit, dirty)
         vi.insert_output_version(tid, v)
         vi.commit_changes()
-        vi._conn.close()
+        vi = None          # dropping the object closes its connection (no private field is touched)
         d = self.out / tid.path / f.task_output_dir(tid, v)
         d.mkdir(parents=True, exist_ok=True)
         if files is None:
